@@ -9,6 +9,8 @@ import sys, os, ast
 sys.path.insert(0, os.path.dirname(os.path.abspath(__file__)))
 from common import *
 
+OUTPUTS = ['C13Facts.v']
+
 MUTATORS = {'pop', 'append', 'extend', 'insert', 'remove', 'clear', 'update', 'sort', 'reverse', 'setdefault',
             'popitem', 'add', 'discard', '__setitem__', '__delitem__', '__setattr__'}
 
